@@ -830,4 +830,10 @@ def run(ctx):
 def run_extra(ctx):
     """rules armed after run(): shared rules that need nothing from run()'s locals"""
     from ..shared import setters_keep_other_settings_rule
+    # what build writes, open must accept: the compressor's own "would the reader take this block" pre-check (shared with C03)
+    from .c03 import compressor_limits_rule
+    compressor_limits_rule(ctx, ctx.prog.crate("wow_mpq"), "C01")
+    # "the listing contains exactly the added names": one entry per stored file (shared with C07)
+    from .c07 import listing_once_rule
+    listing_once_rule(ctx, ctx.prog.crate("wow_mpq"), "C01")
     setters_keep_other_settings_rule(ctx, [ctx.prog.crate(c) for c in ["wow_mpq"]], "C01", "builder::ArchiveBuilder$|archive::OpenOptions$", floor=14)
